@@ -597,3 +597,42 @@ fn c06_string_cmp_prefix() {
 fn c06_string_cmp_equal() {
     string_cmp_contract("ab", "ab", std::cmp::Ordering::Equal);
 }
+
+/// O15.1r  `as_int` of ANY word is a 61-bit value (arithmetic shift by 3): the accessor contract that the
+/// Verus units assume for Object::as_int.
+#[kani::proof]
+#[kani::unwind(2)]
+fn c15_as_int_range() {
+    let w: usize = kani::any();
+    kani::cover!(w == usize::MAX);
+    let v = Object(w as *mut u8).as_int();
+    assert!(v >= MIN_INT && v <= MAX_INT);
+    // and for Int words made by the constructor it is the constructor's argument (c15_int_roundtrip)
+}
+
+/// PROBE-ONLY (never run through CBMC: equivalence of two multipliers/dividers is SAT-hard). This is the
+/// executable form of the Verus contract O06.2; when O06.2 fails, the driver runs it natively on the
+/// boundary lattice of C06 to look for a concrete failing input.
+#[kani::proof]
+#[kani::unwind(2)]
+fn c06_int_arith_exact_probe() {
+    let op: u8 = kani::any();
+    let a = any_int();
+    let b = any_int();
+    let mut gc = new_gc();
+    let (oa, ob) = (Object::int(a), Object::int(b));
+    let (r, exact): (Result<Object, Error>, Option<i128>) = match op % 5 {
+        0 => (oa.add(ob, &mut gc), Some(a as i128 + b as i128)),
+        1 => (oa.sub(ob, &mut gc), Some(a as i128 - b as i128)),
+        2 => (oa.mul(ob, &mut gc), Some(a as i128 * b as i128)),
+        3 => (oa.div(ob, &mut gc), if b == 0 { None } else { Some(a as i128 / b as i128) }),
+        _ => (oa.rem(ob, &mut gc), if b == 0 { None } else { Some(a as i128 % b as i128) }),
+    };
+    match exact {
+        Some(m) if m >= MIN_INT as i128 && m <= MAX_INT as i128 => match r {
+            Ok(o) => assert!(o.tag() == Type::Int && o.as_int() as i128 == m),
+            Err(_) => assert!(false, "exact result in range must not be an error"),
+        },
+        _ => assert!(r.is_err()),
+    }
+}
